@@ -5,7 +5,8 @@
   `hNoForge` of `prefix_of_sent_partial`; what is proved outright is that every delivery is preceded by a
   comparison of the complete tag over (sequence number ‖ length ‖ whole body).
 -/
-import PV.Model.PacketAuth
+import PV.Model.PacketEpoch
+import PV.Model.PacketTrunc
 namespace PV.Props.C02
 open PV PV.Packet
 
@@ -88,6 +89,45 @@ theorem prefix_of_sent_partial {p : Prims} (W : Laws p) (Bj : CipherBij p W.blk 
   cases hst : (recvAll r ops w).stop with
   | none => exact Or.inr (h2 hst)
   | some e => exact Or.inl ⟨e, rfl⟩
+
+/-- **Set-membership form of the hypothesis** for one key epoch of a MAC mode (classic with a MAC, or
+encrypt-then-MAC), message-only histories of at most 2^32 packets: it is enough that every record the receiver's
+verifications accept was authenticated by the sender *at some time* (`hMem`, the usual shape of MAC
+unforgeability).  Because the sequence number is part of every authenticated record (`accept_checks_tag_*`) and
+numbers do not repeat within 2^32 packets, replayed, reordered or dropped packets then cannot verify, and the
+delivered messages are a prefix of the sent ones. -/
+theorem prefix_of_sent_membership_partial {p : Prims} (W : Laws p) (Bj : CipherBij p W.blk W.Paired)
+    (ops : List (Op p)) (s : Sender p) (r : Receiver p) (hp : PairedSt W s r)
+    (hm : MacModeIn r.ciph r.macLen) (hmo : MsgOnly ops) (hlen : ops.length ≤ 4294967296)
+    (hlt : s.seq < 4294967296)
+    (s' : Sender p) (wire : Bytes) (log : List Auth) (hs : sendAll s ops = .ok (s', wire, log)) (w : Bytes)
+    (hMem : ∀ e ∈ (recvAll r ops w).auths, e ∈ log) :
+    (recvAll r ops w).msgs <+: msgsOf s.seq ops ∧
+    ((∃ e, (recvAll r ops w).stop = some e) ∨ (recvAll r ops w).msgs = msgsOf s.seq ops) := by
+  have hA : AuthCfg r.ciph r.macLen := by
+    cases hrc : r.ciph with
+    | plain => rw [hrc] at hm; exact absurd hm (by simp [MacModeIn])
+    | aead _ _ => trivial
+    | etm _ _ => trivial
+    | classic _ _ => rw [hrc] at hm; exact hm
+  have hok : ∀ op ∈ ops, OpOk W op ∧ OpAuth op := by
+    intro op hop
+    obtain ⟨d, rnd, rfl⟩ := hmo op hop
+    exact ⟨trivial, trivial⟩
+  exact prefix_of_sent_partial W Bj ops s r hp hA hok s' wire log hs w
+    (positional_of_membership W ops s r hp hm hmo hlen hlt s' wire log hs w hMem)
+
+/-- **Truncation, unconditionally** (no cryptographic hypothesis): a receiver that is handed only the first `k`
+bytes of the honest stream — the tail was deleted, or has not arrived yet — delivers a prefix of the sent messages
+and then has either finished or stopped with EOF (it waits for more data); it never fails differently and never
+delivers anything else.  Every history, every `k`. -/
+theorem truncated_stream_prefix {p : Prims} (W : Laws p) (ops : List (Op p)) (s : Sender p) (r : Receiver p)
+    (hp : PairedSt W s r) (hok : ∀ op ∈ ops, OpOk W op)
+    (s' : Sender p) (wire : Bytes) (log : List Auth) (hs : sendAll s ops = .ok (s', wire, log))
+    (t : Bytes) (k : Nat) :
+    (recvAll r ops ((wire ++ t).take k)).msgs <+: msgsOf s.seq ops ∧
+    ((recvAll r ops ((wire ++ t).take k)).stop = none ∨ (recvAll r ops ((wire ++ t).take k)).stop = some .eof) :=
+  truncated_seq W ops s r hp hok s' wire log hs t k
 
 /-- `hNoForge` is satisfiable: on the untampered wire (followed by anything) the receiver verifies exactly the
 sender's records -/
